@@ -46,6 +46,11 @@ struct TextInfo {
     hash: Option<u64>,
     key: ReconKey,
     shape: u32,
+    /// Grouping id of raw failures: the bucket for valid texts, the token shape otherwise.
+    gid: u32,
+    /// Lexical features (negative zero float, zero float, newline, string with raw delimiter,
+    /// string with escapes, `;`): failures are grouped separately per feature combination.
+    feat: u8,
     text_mask: u16,
 }
 
@@ -243,7 +248,25 @@ fn build_db(list: Vec<(String, u8)>, n_primary_texts: usize, mutant_cap: usize) 
                 Class::Valid(b)
             }
         };
-        texts.push(TextInfo { s, rank, class, hash: c.hash, key: c.key, shape, text_mask: c.mask });
+        let gid = match class {
+            Class::Valid(b) => b,
+            _ => 0x8000_0000 | shape,
+        };
+        let mut feat = 0u8;
+        for ch in c.shape.chars() {
+            feat |= match ch {
+                'Z' => 1,
+                'O' => 2,
+                'n' => 4,
+                'Q' => 8,
+                'X' => 16,
+                'Y' => 24,
+                ';' => 32,
+                'U' => 64,
+                _ => 0,
+            };
+        }
+        texts.push(TextInfo { s, rank, class, hash: c.hash, key: c.key, shape, gid, feat, text_mask: c.mask });
     }
     // quick-tier texts first inside every bucket (so that "the first K texts" of a bucket in the
     // thorough tier extend those of the quick tier)
@@ -266,6 +289,8 @@ fn build_db(list: Vec<(String, u8)>, n_primary_texts: usize, mutant_cap: usize) 
 // accumulation of raw failures
 // ---------------------------------------------------------------------------------------------
 
+type GKey = (u8, u32, u32, u8, u8); // law bit, group ids (sorted), features
+
 #[derive(Clone, Copy)]
 struct Group {
     count: u64,
@@ -277,17 +302,26 @@ struct Acc {
     evals: u64,
     calls: u64,
     nontrivial: u64,
-    groups: HashMap<(u8, u32, u32), Group>,
+    groups: HashMap<GKey, Group>,
+    /// failing pairs not recorded because the per-worker group table was full
+    overflow: u64,
 }
+
+const MAX_GROUPS_PER_WORKER: usize = 50_000;
 
 impl Acc {
     fn fail(&mut self, db: &Db, mask: u16, i: u32, j: u32) {
         let (ti, tj) = (&db.texts[i as usize], &db.texts[j as usize]);
-        let (sa, sb) = if ti.shape <= tj.shape { (ti.shape, tj.shape) } else { (tj.shape, ti.shape) };
+        let (ga, gb) = ((ti.gid, ti.feat), (tj.gid, tj.feat));
+        let ((sa, fa), (sb, fb)) = if ga <= gb { (ga, gb) } else { (gb, ga) };
         let cand = (ti.rank + tj.rank, (ti.s.len() + tj.s.len()) as u32, i, j);
         for bit in 0..N_LAWS {
             if mask & (1 << bit) != 0 {
-                let g = self.groups.entry((bit as u8, sa, sb)).or_insert(Group { count: 0, best: cand });
+                if self.groups.len() >= MAX_GROUPS_PER_WORKER && !self.groups.contains_key(&(bit as u8, sa, sb, fa, fb)) {
+                    self.overflow += 1;
+                    continue;
+                }
+                let g = self.groups.entry((bit as u8, sa, sb, fa, fb)).or_insert(Group { count: 0, best: cand });
                 g.count += 1;
                 if better(db, cand, g.best) {
                     g.best = cand;
@@ -357,6 +391,7 @@ fn merge_into(db: &Db, total: &mut Acc, o: Acc) {
     total.evals += o.evals;
     total.calls += o.calls;
     total.nontrivial += o.nontrivial;
+    total.overflow += o.overflow;
     for (k, g) in o.groups {
         match total.groups.get_mut(&k) {
             None => {
@@ -587,7 +622,8 @@ fn main() {
         t0.elapsed().as_secs_f64()
     );
 
-    let mut leg_groups: Vec<(String, HashMap<(u8, u32, u32), Group>)> = vec![];
+    let mut leg_groups: Vec<(String, HashMap<GKey, Group>)> = vec![];
+    let mut overflow_total = 0u64;
 
     // ---- leg 0: every text against itself (reflexivity, per-text hash laws)
     {
@@ -615,6 +651,7 @@ fn main() {
             bounds: json!({"model_values": n_values, "texts": n_texts, "valid": n_valid, "invalid": n_invalid, "reference_parser_panics": n_panics, "buckets": db.buckets.len(), "primary_buckets": primary.len()}),
             wall_s: t0.elapsed().as_secs_f64(),
         });
+        overflow_total += acc.overflow;
         leg_groups.push(("texts_reflexive".into(), acc.groups));
     }
 
@@ -651,6 +688,7 @@ fn main() {
             bounds: json!({"buckets": db.buckets.len(), "largest_bucket": big}),
             wall_s: t0.elapsed().as_secs_f64(),
         });
+        overflow_total += acc.overflow;
         leg_groups.push(("within_bucket".into(), acc.groups));
     }
 
@@ -700,6 +738,7 @@ fn main() {
             bounds: json!({"classes_with_2+_buckets": classes.len(), "largest_class": big, "texts_per_bucket_K": k_nb}),
             wall_s: t0.elapsed().as_secs_f64(),
         });
+        overflow_total += acc.overflow;
         leg_groups.push(("neighbour_buckets".into(), acc.groups));
     }
 
@@ -739,6 +778,7 @@ fn main() {
             bounds: json!({"primary_buckets": primary.len()}),
             wall_s: t0.elapsed().as_secs_f64(),
         });
+        overflow_total += acc.overflow;
         leg_groups.push(("all_bucket_pairs".into(), acc.groups));
     }
 
@@ -774,6 +814,7 @@ fn main() {
             bounds: json!({"bases": mutation_sets.len(), "mutants": n_mut, "sibling_cap_N": sib_cap}),
             wall_s: t0.elapsed().as_secs_f64(),
         });
+        overflow_total += acc.overflow;
         leg_groups.push(("mutations".into(), acc.groups));
     }
 
@@ -836,6 +877,7 @@ fn main() {
             bounds: json!({"handwritten": handwritten.len(), "invalid_pool": inv_pool.len(), "all_invalid_texts": invalid_all.len(), "bucket_representatives": reps.len()}),
             wall_s: t0.elapsed().as_secs_f64(),
         });
+        overflow_total += acc.overflow;
         leg_groups.push(("invalid_texts".into(), acc.groups));
     }
 
@@ -843,6 +885,7 @@ fn main() {
     {
         let t0 = Instant::now();
         let kq = ctx.tier.pick(3usize, 6usize);
+        let kq_nb = ctx.tier.pick(2usize, 3usize);
         #[derive(Clone, Copy)]
         enum U {
             Within(u32, u32),
@@ -857,7 +900,7 @@ fn main() {
         }
         for (c, bs) in classes.iter().enumerate() {
             for (x, &b) in bs.iter().enumerate() {
-                for r in 0..db.buckets[b as usize].texts.len().min(kq) {
+                for r in 0..db.buckets[b as usize].texts.len().min(kq_nb) {
                     units.push(U::Neigh(c as u32, x as u32, r as u32));
                 }
             }
@@ -893,7 +936,7 @@ fn main() {
                 let bs = &classes[c as usize];
                 let i = db.buckets[bs[x as usize] as usize].texts[r as usize];
                 for &b2 in &bs[x as usize + 1..] {
-                    for &j in db.buckets[b2 as usize].texts.iter().take(kq) {
+                    for &j in db.buckets[b2 as usize].texts.iter().take(kq_nb) {
                         queue_pair(i, j, acc);
                     }
                 }
@@ -914,21 +957,22 @@ fn main() {
             transitions: acc.calls,
             evaluations: acc.evals,
             distinct_nontrivial: acc.nontrivial,
-            rule: "MapOperationQueue (HashMap keyed by ReconKey, SipHash zero keys): update(a);update(b) and update(a);remove(b), drained; pairs = first K texts of each primary bucket pairwise, first K texts across neighbouring buckets, all pairs of hand-written texts; non-trivial = pairs of distinct texts with equal keys (must coalesce)".into(),
+            rule: "MapOperationQueue (HashMap keyed by ReconKey, SipHash zero keys): update(a);update(b) and update(a);remove(b), drained; pairs = first K texts of each primary bucket pairwise, first K' texts across neighbouring buckets, all pairs of hand-written texts; non-trivial = pairs of distinct texts with equal keys (must coalesce)".into(),
             samples: vec![json!({"ops": ["update(\"@a(1,2)\",1)", "update(\"@a({1,2})\",2)"], "expected": "one entry, value 2"})],
             exhaustive: true,
-            bounds: json!({"texts_per_bucket_K": kq}),
+            bounds: json!({"texts_per_bucket_K": kq, "texts_per_neighbour_bucket": kq_nb}),
             wall_s: t0.elapsed().as_secs_f64(),
         });
+        overflow_total += acc.overflow;
         leg_groups.push(("backpressure_queue".into(), acc.groups));
     }
 
     // ---- reduce every failure group's best example to a canonical minimal pair
     let t0 = Instant::now();
-    let mut todo: Vec<(usize, u8, u32, u32, u64, u32, u32)> = vec![]; // leg, law bit, i, j, count, shape a, shape b
+    let mut todo: Vec<(usize, u8, u32, u32, u64, u32, u32)> = vec![]; // leg, law bit, i, j, count, group ids
     let mut seen: HashMap<(u8, u32, u32), ()> = HashMap::new();
     for (l, (_, groups)) in leg_groups.iter().enumerate() {
-        let mut gs: Vec<(&(u8, u32, u32), &Group)> = groups.iter().collect();
+        let mut gs: Vec<(&GKey, &Group)> = groups.iter().collect();
         gs.sort_by(|(k1, g1), (k2, g2)| {
             let t = |i: u32| db.texts[i as usize].s.as_str();
             (k1.0, g1.best.0, g1.best.1, t(g1.best.2), t(g1.best.3)).cmp(&(k2.0, g2.best.0, g2.best.1, t(g2.best.2), t(g2.best.3)))
@@ -965,7 +1009,7 @@ fn main() {
         let bit = t.1 as usize;
         let consequence = bit >= 8 && bit <= 9 && string_laws(a, b) != 0;
         let sig = if n >= reduce_cap {
-            format!("law={} unreduced shapes={:?}|{:?}", law_name(bit), db.shapes[t.5 as usize], db.shapes[t.6 as usize])
+            format!("law={} unreduced shapes={:?}|{:?}", law_name(bit), db.shapes[db.texts[t.2 as usize].shape as usize], db.shapes[db.texts[t.3 as usize].shape as usize])
         } else if consequence {
             format!("law={} (consequence of a compare/hash law violation on the same pair)", law_name(bit))
         } else {
@@ -995,6 +1039,9 @@ fn main() {
         reduced.iter().map(|r| r.2).sum::<u64>()
     );
 
+    if overflow_total > 0 {
+        ctx.violation("all", "raw failure table overflow (more distinct failing groups than the engine records)", json!({"law": "overflow", "unrecorded_failing_pairs": overflow_total, "explanation": "too many distinct failure groups"}));
+    }
     ctx.assume("validity and equality of texts are defined by parse_recognize::<Value>(text, false) and Value's PartialEq (so text after a complete top-level value is ignored, as the reference parser ignores it)");
     ctx.assume("SipHash-1-3 with zero keys (std DefaultHasher::new) stands for every Hasher");
     ctx.assume("value pool: tree size <= 3 (thorough: 4) over boundary atoms; other atoms and deeper nesting are not enumerated");
